@@ -564,7 +564,7 @@ static int ec_read(char *loc, char *cmd, char *arg, char *txt)
 		}
 		close(fd);
 	}
-	xrow = end + lbuf_len(xb) - n - 1;
+	xrow = MAX(0, end + lbuf_len(xb) - n - 1);
 	snprintf(msg, sizeof(msg), "\"%s\"  [=%d]  [r]",
 		path, lbuf_len(xb) - n);
 	ex_show(msg);
